@@ -1,6 +1,8 @@
 import Sudachi.Proofs.Lattice
 import Sudachi.Proofs.LatticeRec
 import Sudachi.Proofs.LatticeI32
+import Sudachi.Proofs.LatticeLex
+import Sudachi.Props.C04
 /-!
 # C02 — The chosen segmentation is a minimum-cost lattice path (Viterbi optimality)
 
@@ -26,6 +28,14 @@ vectors that never shrink, `size`, `eos`, `reset`/`reset_vec`/`connect_bos`, sto
 `recycled_*` theorems transfer everything above to it for EVERY previous state
 (`reset_then_build_eq_fresh`); `partial_clear_counterexample` is the seeded change C02b;
 `i32_lattice_eq_model` is the side condition under which the `i32` code (C03's model) equals this one.
+
+Third round (what `vdriver` executes now, op `build`): the position loop of `LatticeBuilder::build_lattice` with the
+DICTIONARY inside the model (`Model/LatticeLex.lean`): `has_previous_node` on the recycled state, the look-up by its
+C04 contract (`lookup_is_c04_spec`), the `can_bow` filter, `get_word_param`, `ch_idx`, dictionary words before the
+providers' nodes, the early `Err(EosBosDisconnect)`.  `builder_eq_candidate_list`, `lattice_has_every_candidate`,
+`optimal_over_dictionary`, `early_exit_leaves_eos_none`: the lattice holds EVERY candidate the dictionaries and
+providers offer at every reachable position, so the optimality theorems range over all sequences of words of the
+dictionary + providers (`CandChain`), not over the rows of the lattice.
 -/
 namespace C02
 open Vit
@@ -509,5 +519,161 @@ example : [0, 1, 4, 6].Pairwise (· ≤ ·) ∧ 3 < [0, 1, 4, 6].length ∧
     ([⟨0, 2, 2, 2, -3⟩, ⟨2, 3, 2, 1, 1⟩] : List Node).map (fun n => ([0, 1, 4, 6][n.e]?).getD 0) = [4, 6] := by
   refine ⟨by decide, by decide, by decide⟩
 
+
+/-! ## Third round: the position loop of `build_lattice` with the DICTIONARY inside (`Model/LatticeLex.lean`)
+
+`Vit.buildLattice conn x s` is `LatticeBuilder::build_lattice` on ANY previous lattice state `s`: `reset`, the loop over the
+character positions (`has_previous_node`, `LexiconSet::lookup`, the `can_bow` filter, `get_word_param`, `ch_idx`, one
+`insert` per word, then the providers' nodes, the early `Err(EosBosDisconnect)`), `connect_eos`.  `Vit.collect x ps []` is
+the same candidates as a list.  The theorems below say that the loop inserts exactly that list, that the list is exactly
+"every dictionary hit that may end where it ends + every provider node, at every position a previous node ends at", and
+that the reported `eos` cost is minimal over ALL sequences of such words — the dictionary is inside the statement. -/
+
+/-- **The stateful position loop equals the functional candidate list, on every previous lattice.**  Whatever state `s`
+the recycled `Lattice` was left in, if the candidate list of the text is `F` (`fin = true`: the loop of `build_lattice`
+ran over all positions; `fin = false`: it returned `Err(EosBosDisconnect)` at a reachable position where neither the
+lexicon nor the providers created a word) and every node lies inside the text, then: `reset` succeeds (`s1`), the
+position loop on `s1` — which decides `has_previous_node` by READING the recycled `ends` vector — performs exactly the
+inserts `buildS conn F` and panics nowhere (`s2`), `eos` is still `None` after the loop, and `build_lattice` as a whole is
+`reset` + those inserts + `connect_eos` (`analyse`, the subject of the `recycled_*` theorems) when the loop ran to its
+end, and `(s2, Err)` without touching `eos` otherwise. -/
+theorem builder_eq_candidate_list (x : BIn) (s : Lat) (ps : List (Nat × Nat)) (F : List Node) (fin : Bool)
+    (hps : positions x = some ps) (hpos : ∀ p ∈ ps, p.1 ≤ x.nchars)
+    (hc : collect x ps [] = some (F, fin)) (hF : ∀ n ∈ F, n.b ≤ x.nchars ∧ n.e ≤ x.nchars) :
+    ∃ s1 s2, reset s x.nchars = some s1 ∧ buildS conn F s1 = some s2 ∧ buildLatS conn x ps s1 = some (s2, fin) ∧
+      s2.eos = none ∧
+      buildLattice conn x s = (if fin then analyse conn s x.nchars F else some (s2, false)) := by
+  obtain ⟨s1, r1, r2, r3, _⟩ := reset_sim s x.nchars
+  obtain ⟨rest, s2, e1, e2, e3, _, e5⟩ := buildLatS_collect conn x x.nchars ps [] s1 F fin hpos r2 hc hF
+  simp only [List.nil_append] at e1
+  subst e1
+  refine ⟨s1, s2, r1, e3, e2, by rw [e5, r3], ?_⟩
+  simp only [buildLattice, r1, hps, e2, analyse, e3]
+  cases fin <;> rfl
+
+/-- **The lattice holds every dictionary/provider candidate of every reachable position, and nothing else.**
+`F` = the nodes `build_lattice` inserted (loop ran to its end), each of positive length.  (1) at every character
+position `o` (byte `bo`) at which some inserted node ends (or `o = 0`) the look-up did not panic and everything it
+produced (`candsAt`: dictionary words first, then the providers' nodes) is in the lattice; (2) spelled out: every
+entry `(word id, end)` of `LexiconSet::lookup(bytes, bo)` — by `lookup_is_c04_spec` exactly the indexed rows of all
+dictionaries whose surface is a prefix of the text at `bo` — that ends at the text end or where a word may begin
+(`can_bow`) is in the lattice as the node `(o, ch_idx(end), left as u16, right as u16, cost)` of ITS row
+(`get_word_param`), and so is every node the providers pushed at `o`; (3) every node of the lattice is such a
+candidate of some position; (4) nodes are inserted in non-decreasing order of begin (what `WF`/`Pairwise` in the
+`recycled_*` theorems ask for). -/
+theorem lattice_has_every_candidate (x : BIn) (ps : List (Nat × Nat)) (F : List Node)
+    (hps : positions x = some ps) (hc : collect x ps [] = some (F, true)) (hwf : WF F) :
+    (∀ o bo, (o, bo) ∈ ps → reachable F o = true → ∃ new, candsAt x o bo = some new ∧ ∀ n ∈ new, n ∈ F) ∧
+    (∀ o bo, (o, bo) ∈ ps → reachable F o = true →
+      (∀ w e, (w, e) ∈ dictLookup x bo → (x.text.length ≤ e ∨ x.bow[e]? = some true) →
+        ∃ p ec, wordParam x w = some p ∧ x.b2c[e]? = some ec ∧
+          (⟨o, ec, toU16 p.left, toU16 p.right, p.cost⟩ : Node) ∈ F) ∧
+      ∀ n ∈ x.oov, n.b = o → n ∈ F) ∧
+    (∀ n ∈ F, ∃ o bo new, (o, bo) ∈ ps ∧ candsAt x o bo = some new ∧ n ∈ new) ∧
+    F.Pairwise (fun a b => a.b ≤ b.b) := by
+  obtain ⟨r, e1, e2, e3, e4⟩ := collect_spec x ps [] F (positions_sorted x ps hps) hc hwf
+  simp only [List.nil_append] at e1
+  subst e1
+  refine ⟨e3, ?_, e2, e4⟩
+  intro o bo hm hre
+  obtain ⟨new, c1, c2⟩ := e3 o bo hm hre
+  refine ⟨?_, fun n hn hb => c2 n (candsAt_oov x o bo new c1 n hn hb)⟩
+  intro w e hw hb
+  obtain ⟨p, ec, g1, g2, g3⟩ := candsAt_dict x o bo new c1 w e hw hb
+  exact ⟨p, ec, g1, g2, c2 _ g3⟩
+
+/-- **Optimality over the dictionary.**  For every previous lattice state: `build_lattice` (with its own look-ups)
+does not panic; it returns `Err(EosBosDisconnect)` iff NO sequence of dictionary/provider candidates (`Cand`: a hit of
+`LexiconSet::lookup` at the position that passes `can_bow`, with the parameters of its row, or a provider node of
+that position) starting at 0, each word beginning where the previous ended, reaches the end of the text; otherwise
+`eos = Some((len, j), v)` where `v` is the cost of such a sequence (word costs + connection costs, BOS and EOS
+included) and NO such sequence is cheaper.  The quantifier ranges over sequences of words of the dictionaries and
+providers, not over rows of the lattice. -/
+theorem optimal_over_dictionary (x : BIn) (s : Lat) (ps : List (Nat × Nat)) (F : List Node)
+    (hps : positions x = some ps) (hpos : ∀ p ∈ ps, p.1 ≤ x.nchars)
+    (hc : collect x ps [] = some (F, true)) (hwf : WF F) (hin : ∀ n ∈ F, n.e ≤ x.nchars) :
+    ∃ s3 b, buildLattice conn x s = some (s3, b) ∧
+      (b = false ↔ ¬ ∃ ws, CandChain x ps bos ws ∧ lastEnd bos ws = x.nchars) ∧
+      (b = false → s3.eos = none) ∧
+      (b = true → ∃ j v, s3.eos = some ((x.nchars, j), v) ∧
+        (∃ ws, CandChain x ps bos ws ∧ lastEnd bos ws = x.nchars ∧ chainCost conn bos ws = v) ∧
+        ∀ ws, CandChain x ps bos ws → lastEnd bos ws = x.nchars → v ≤ chainCost conn bos ws) := by
+  have hF : ∀ n ∈ F, n.b ≤ x.nchars ∧ n.e ≤ x.nchars :=
+    fun n hn => ⟨by have := hwf n hn; have := hin n hn; omega, hin n hn⟩
+  obtain ⟨_, _, _, _, _, _, hb⟩ := builder_eq_candidate_list conn x s ps F true hps hpos hc hF
+  simp only [if_true] at hb
+  obtain ⟨b1, _, b3, b4⟩ := lattice_has_every_candidate x ps F hps hc hwf
+  have to : ∀ ws, CandChain x ps bos ws → IsChain F bos ws :=
+    fun ws h => candChain_isChain x ps F b1 ws bos (Or.inl rfl) h
+  have from_ : ∀ ws, IsChain F bos ws → CandChain x ps bos ws :=
+    fun ws h => isChain_candChain x ps F b3 ws bos h
+  obtain ⟨s3, b, r1, _, r3, r4, r5⟩ := recycled_optimal conn s x.nchars F hwf b4 hin
+  refine ⟨s3, b, by rw [hb, r1], ?_, r4, ?_⟩
+  · rw [r3]
+    constructor
+    · rintro h ⟨ws, w1, w2⟩; exact h ⟨ws, to ws w1, w2⟩
+    · rintro h ⟨ws, w1, w2⟩; exact h ⟨ws, from_ ws w1, w2⟩
+  · intro hbt
+    obtain ⟨j, v, q1, _, ⟨ws, w1, w2, w3⟩, q4⟩ := r5 hbt
+    exact ⟨j, v, q1, ⟨ws, from_ ws w1, w2, w3⟩, fun ws' h1 h2 => q4 ws' (to ws' h1) h2⟩
+
+/-- **The early exit leaves `eos = None`.**  If at some reachable position neither the lexicon nor the providers create
+a word (`collect … = some (F, false)`), `build_lattice` on any previous state returns `Err(EosBosDisconnect)` from
+inside the loop: the nodes inserted so far are in the lattice, `connect_eos` is never called and `eos` is `None` — not
+the `eos` of the previous text. -/
+theorem early_exit_leaves_eos_none (x : BIn) (s : Lat) (ps : List (Nat × Nat)) (F : List Node)
+    (hps : positions x = some ps) (hpos : ∀ p ∈ ps, p.1 ≤ x.nchars)
+    (hc : collect x ps [] = some (F, false)) (hF : ∀ n ∈ F, n.b ≤ x.nchars ∧ n.e ≤ x.nchars) :
+    ∃ s2, buildLattice conn x s = some (s2, false) ∧ s2.eos = none ∧
+      (reset s x.nchars).bind (buildS conn F) = some s2 := by
+  obtain ⟨s1, s2, a1, a2, _, a4, a5⟩ := builder_eq_candidate_list conn x s ps F false hps hpos hc hF
+  exact ⟨s2, by simpa using a5, a4, by simp [a1, a2]⟩
+
+/-- **Composition with C04: the look-up inside the builder model is what C04 proves of the real trie walk.**  For every
+stack of source row lists compiled into lexicons (the hypotheses of `C04.lookup_spec`, evaluated by the driver for
+every lexicon of a run) whose `(surface, left id)` columns are the dictionaries of the case, every text and every
+byte offset: `LexiconSet::lookup` — double-array traversal, word-id table, dictionary stamping — returns exactly
+`dictLookup x off`, the list `build_lattice` iterates over in `buildLattice`. -/
+theorem lookup_is_c04_spec (x : BIn) (ws : List (List Trie.Entry × Trie.Lex)) (set : List Trie.Lex)
+    (hset : Trie.mkSet (ws.map (·.2)) = some set) (hcmp : ∀ w ∈ ws, Trie.CompiledRaw w.1 w.2)
+    (hs : ∀ w ∈ ws, w.1.all Trie.surfaceOk = true)
+    (hsrc : ws.map (·.1) = x.dicts.map (·.map toEntry)) (hn : ∀ b ∈ x.text, b < 256) (off : Nat) :
+    Trie.setLookup true set x.text off = some (dictLookup x off) := by
+  rw [dictLookup_eq_spec, ← hsrc]
+  exact C04.lookup_spec ws set hset hcmp hs x.text off hn
+
+/-- Non-vacuity of the hypotheses of the third-round theorems, on the text "abc" (three one-byte characters; a word may
+begin at bytes 0 and 1 but not at byte 2).  System dictionary: "a", "ab", "abc", "b", "c" and a row "bc" with
+`left = -1` (not indexed); user dictionary: a homograph "a" with the same right id and another left id; the providers
+pushed one node (1, 3).  The loop inserts, in this order: the USER "a" (later dictionaries first), the system "a", "abc"
+("ab" ends at byte 2 where no word may begin: filtered), then at position 1 only the provider node ("b" ends at byte 2,
+"bc" is not indexed); position 2 has no previous node and is skipped, so "c" is never looked at.  All hypotheses of
+`builder_eq_candidate_list`, `lattice_has_every_candidate`, `optimal_over_dictionary` hold; `build_lattice` on a new
+and on a dirty recycled lattice reports the same `eos`; without the provider node the loop returns
+`Err(EosBosDisconnect)` at position 1 and `eos` is `None`. -/
+example :
+    let x : BIn :=
+      { text := [97, 98, 99], nchars := 3, c2b := [0, 1, 2, 3], b2c := [0, 1, 2, 3], bow := [true, true, false],
+        dicts := [[⟨[97], 1, 1, 100⟩, ⟨[97, 98], 2, 2, 50⟩, ⟨[97, 98, 99], 3, 3, 700⟩, ⟨[98], 4, 4, 100⟩,
+                   ⟨[99], 5, 5, 100⟩, ⟨[98, 99], -1, 6, 10⟩],
+                  [⟨[97], 9, 1, 80⟩]],
+        oov := [⟨1, 3, 7, 7, 500⟩] }
+    let ps : List (Nat × Nat) := [(0, 0), (1, 1), (2, 2)]
+    let F : List Node := [⟨0, 1, 9, 1, 80⟩, ⟨0, 1, 1, 1, 100⟩, ⟨0, 3, 3, 3, 700⟩, ⟨1, 3, 7, 7, 500⟩]
+    let conn : Nat → Nat → Int := fun a b => if a == 0 && b == 9 then 1000 else 0
+    let dirty : Lat := ⟨[[⟨0, some 0⟩], [], [], [⟨7, some (-400)⟩], [⟨1, none⟩]],
+      [[], [], [], [⟨1, 3, 0, 7, -500⟩], [⟨2, 4, 1, 1, 5⟩]], [[], [], [], [(1, 0)], [(65535, 65535)]], some ((3, 0), -400), 5⟩
+    positions x = some ps ∧ (∀ p ∈ ps, p.1 ≤ x.nchars) ∧
+    dictLookup x 0 = [(268435456, 1), (0, 1), (1, 2), (2, 3)] ∧ dictLookup x 1 = [(3, 2)] ∧
+    candsAt x 1 1 = some [⟨1, 3, 7, 7, 500⟩] ∧
+    collect x ps [] = some (F, true) ∧ (∀ n ∈ F, n.b < n.e) ∧ (∀ n ∈ F, n.b ≤ x.nchars ∧ n.e ≤ x.nchars) ∧
+    (buildLattice conn x Lat.empty).map (fun r => (r.2, r.1.eos)) = some (true, some ((3, 1), 600)) ∧
+    (buildLattice conn x dirty).map (fun r => (r.2, r.1.eos)) = some (true, some ((3, 1), 600)) ∧
+    -- no provider node: nothing is created at the reachable position 1
+    collect { x with oov := [] } ps [] = some ([⟨0, 1, 9, 1, 80⟩, ⟨0, 1, 1, 1, 100⟩, ⟨0, 3, 3, 3, 700⟩], false) ∧
+    (buildLattice conn { x with oov := [] } dirty).map (fun r => (r.2, r.1.eos, r.1.full[1]?)) =
+      some (false, none, some [⟨0, 1, 9, 1, 80⟩, ⟨0, 1, 1, 1, 100⟩]) := by
+  refine ⟨by decide, by decide, by decide, by decide, by decide, by decide, by decide, by decide, by decide, by decide,
+    by decide, by decide⟩
 
 end C02
